@@ -44,8 +44,8 @@ const fn mul_add(mut ui_a: u8, mut ui_b: u8, mut ui_c: u8, op: MulAddType) -> P8
 
     let sign_a = P8E0::sign_ui(ui_a);
     let sign_b = P8E0::sign_ui(ui_b);
-    let sign_c = P8E0::sign_ui(ui_c); //^ (op == softposit_mulAdd_subC);
-    let mut sign_z = sign_a ^ sign_b; // ^ (op == softposit_mulAdd_subProd);
+    let mut sign_c = P8E0::sign_ui(ui_c);
+    let mut sign_z = sign_a ^ sign_b;
 
     if sign_a {
         ui_a = ui_a.wrapping_neg();
@@ -55,6 +55,12 @@ const fn mul_add(mut ui_a: u8, mut ui_b: u8, mut ui_c: u8, op: MulAddType) -> P8
     }
     if sign_c {
         ui_c = ui_c.wrapping_neg();
+    }
+    // a*b - c negates the addend, c - a*b negates the product
+    match op {
+        MulAddType::SubC => sign_c = !sign_c,
+        MulAddType::SubProd => sign_z = !sign_z,
+        MulAddType::Add => {}
     }
 
     let (mut k_a, frac_a) = P8E0::separate_bits(ui_a);
